@@ -3,6 +3,8 @@ import Genshi.Model.Match
 import Genshi.Model.MatchPath
 import Genshi.Model.MatchLazy
 import Genshi.Model.MatchSpec
+import Genshi.Model.MatchReal
+import Driver.C05
 namespace Driver.C12
 open Genshi Genshi.Match Genshi.Sexp
 
@@ -15,6 +17,13 @@ open Genshi Genshi.Match Genshi.Sexp
   C12 lazy <fuel> ( item … )     the same through the automaton model (covers buffer="false")
   C12 tree ( item … )             the specification: one tree rewrite per template (Model/MatchSpec.lean)
   answer: ( ok ( event … ) ( hits per registered template … ) ) | unmodelled | ( err fuel )
+
+  The real matcher (the path model of C05/C17, Model/MatchReal.lean):
+  C12 real <fuel> ( ritem … )    the automaton model with `mkReal` templates
+  C12 xspec ( ritem … )           the specification with the XPath reference semantics as the "matches"
+                                  relation (`xpForest`/`patternSel`): one tree rewrite per template
+     ritem := ( S name ( ( attr value ) … ) ) | ( E name ) | ( T text )
+            | ( REGT "path text" ( bitem … ) buffer once recursive )
 -/
 
 def ev? : Sexp → Option Event
@@ -131,7 +140,123 @@ def specAnswer (items : List (Item PSt)) : Sexp :=
       | _ => .atom "unmodelled"
   | _ => .atom "unmodelled"
 
+/-! ### the real matcher -/
+
+def attrs? : Sexp → Option AttrList
+  | .list xs => xs.mapM fun
+      | .list [.str k, .str v] => some (⟨[], k⟩, v)
+      | _ => none
+  | _ => none
+
+def rev? : Sexp → Option Event
+  | .list [.atom "S", .str n, a] => do let a ← attrs? a; pure (.start ⟨[], n⟩ a)
+  | x => ev? x
+
+def revOut : Event → Sexp
+  | .start t [] => .list [.atom "S", .str t.loc]
+  | .start t a => .list [.atom "S", .str t.loc, .list (a.map fun (k, v) => .list [.str k.loc, .str v])]
+  | e => evOut e
+
+/-- a parsed `py:match` path, or why the model does not cover it -/
+def rpath? (text : List Char) : Option (List Path.LocPath) :=
+  if !Driver.C05.textCovered text then none else
+  match Path.parse text with
+  | .ok ps => if Driver.C05.pathsCovered ps then some ps else none
+  | .error _ => none
+
+/-- `none`: malformed request; `some none`: a path outside the model -/
+def ritem? : Sexp → Option (Option (Item RSt))
+  | .list [.atom "REGT", .str text, .list body, b, o, r] => do
+      let body ← body.mapM bitem?
+      let b ← optName? b; let o ← optName? o; let r ← optName? r
+      match rpath? text with
+      | none => pure none
+      | some ps => pure (some (.reg (mkReal ps [] [] body (parseHints b o r))))
+  | x => (rev? x).map fun e => some (.ev e)
+
+def ritems? (xs : List Sexp) : Option (Option (List (Item RSt))) := do
+  let ys ← xs.mapM ritem?
+  pure (ys.mapM id)
+
+/-- is the predicate a position test (statically; no variables are bound) -/
+def numPred : Path.Expr → Bool
+  | .num _ => true
+  | .fn1 f _ => f == .number || f == .ceiling || f == .floor || f == .round || f == .stringLength
+  | _ => false
+
+/-- paths the XPath-reference specification covers: element axes only, no leading `.`, no position test -/
+def specPathOk (p : Path.LocPath) : Bool :=
+  !p.isEmpty && Path.stripDot p == p &&
+  p.all fun s => s.axis != .attribute && s.axis != .self && s.preds.all fun q => !numPred q
+
+structure RDecl where
+  paths : List Path.LocPath
+  body : List BItem
+  hints : Hints
+
+def rdecl? : Sexp → Option (Option RDecl)
+  | .list [.atom "REGT", .str text, .list body, b, o, r] => do
+      let body ← body.mapM bitem?
+      let b ← optName? b; let o ← optName? o; let r ← optName? r
+      match rpath? text with
+      | none => pure none
+      | some ps => pure (some ⟨ps, body, parseHints b o r⟩)
+  | _ => none
+
+def splitRDecls : List Sexp → Option (Option (List RDecl) × List Sexp)
+  | x :: r =>
+    match x with
+    | .list (.atom "REGT" :: _) => do
+        let d ← rdecl? x
+        let q ← splitRDecls r
+        pure ((do let d ← d; let ds ← q.1; pure (d :: ds)), q.2)
+    | _ => pure (some [], x :: r)
+  | [] => pure (some [], [])
+
+def xstages : List RDecl → List Event → Option (List Event)
+  | [], es => some es
+  | d :: ds, es => do
+      let forest ← toForest es [] []
+      xstages ds (xpForest (patternSel d.paths [] []) d.body (!d.hints.notRecursive) forest)
+
+def xspecAnswer (items : List Sexp) : Option Sexp :=
+  match items with
+  | first :: rest => do
+    let root ← rev? first
+    match root with
+    | .start rootTag ra =>
+      let (decls, content) ← splitRDecls rest
+      match decls with
+      | none => pure (.atom "unmodelled")
+      | some decls =>
+        -- the content must be plain events (no declaration after content)
+        if content.any (fun x => match x with | .list (.atom "REGT" :: _) => true | _ => false) then
+          pure (.atom "unmodelled")
+        else do
+          let evs ← content.mapM rev?
+          match evs.reverse with
+          | .end_ root' :: revc =>
+            if root' != rootTag || decls.any (fun d => d.hints.matchOnce || !(d.paths.all specPathOk)) then
+              pure (.atom "unmodelled")
+            else
+              match xstages decls revc.reverse with
+              | some out => pure (.list [.atom "ok", .list ((Event.start rootTag ra :: out ++ [Event.end_ rootTag]).map revOut), .list []])
+              | none => pure (.atom "unmodelled")
+          | _ => pure (.atom "unmodelled")
+    | _ => pure (.atom "unmodelled")
+  | [] => pure (.atom "unmodelled")
+
 def handle : List Sexp → Option Sexp
+  | [.atom "real", fuel, .list items] => do
+      let fuel ← fuel.toNat?
+      let items ← ritems? items
+      match items with
+      | none => pure (.atom "unmodelled")
+      | some items =>
+        match runL fuel .idle items [] with
+        | some (_, mts, out) => pure (.list [.atom "ok", .list (out.map revOut), .list (mts.map fun t => ofNat t.hits)])
+        | none => pure (.list [.atom "err", .atom "fuel"])
+  | [.atom "xspec", .list items] => xspecAnswer items
   | [.atom "run", fuel, .list items] => do
       let fuel ← fuel.toNat?
       let items ← items.mapM item?
